@@ -9,7 +9,7 @@ func init() {
 				"the repository's example programs (/repo/test/*.rb with a plain invocation and at most 60 lines; quick tier: a sample of 40 chosen by VERIF_SEED, thorough tier: all) split at a solver-chosen top-level statement boundary (both neighbouring rows unindented, complete statements; programs with heredocs left out) into one preload file and the target, run by the real main() on the virtual file system; compared in one path with the analysis of the whole program restricted to the target's rows")
 			cp.Config, cp.Budget = "", 80000000
 			return []*Job{cp, f4Job("preload", "VerifPreload", 0, []string{"ran"}, []string{"C18-hidden", "C18-prefix"},
-				"3 skeleton programs (class + subclass then use, a helper method, diagnostics inside the preloaded part) split at top-level boundaries into one preload file (short/long) or two preload files plus the target; the real preload()/evaluationLoop(isLoad) sequence of main runs on a virtual file system (.ti-loader.json, p0.rb, p1.rb); compared in one path with the analysis of the concatenation; leaf kind a solver variable")}
+				"8 skeleton programs (class + subclass then use, a helper method, diagnostics inside the preloaded part, placeholders left by the preloaded part, instance variables and constants, a mixin, a variable reassigned and a method redefined across chunks) split at top-level boundaries into one preload file (short/long) or two preload files (named in and out of sorted order) plus the target, with and without -i; the real main() with loader.GetPreloadFiles / preload() / evaluationLoop(isLoad) runs on a virtual file system (.ti-loader.json and the preload files); compared in one path with the analysis of the concatenation; leaf kind a solver variable")}
 		},
 		Custom:    replayPreload,
 		Filter:    func(v *Violation) bool { return strings.HasPrefix(v.ID, "C18") },
